@@ -73,6 +73,15 @@ func vsReadInto(self *Metadata, name MetadataFileName, target interface{}) error
 	if vsDefsErr {
 		return errors.New("bad _stage_defs")
 	}
+	if ji, ok := target.(*JobInfo); ok {
+		if vsJobInfoErr {
+			return errors.New("bad _jobinfo")
+		}
+		if !vsPidZero {
+			ji.Pid = 4711
+		}
+		return nil
+	}
 	if sd, ok := target.(**StageDefs); ok {
 		defs := &StageDefs{}
 		for i := 0; i < vsChunks; i++ {
@@ -225,6 +234,50 @@ func vsNewTask(pctx context.Context, taskType string) (context.Context, *trace.T
 
 //verif:stub (*runtime/trace.Task).End
 func vsTaskEnd(t *trace.Task) {}
+
+// ---- stubs used by the restart / lock harnesses (C05, C15)
+
+var (
+	vsRemovedAll []string
+	vsRemovedOne []string
+	vsPidZero    bool
+	vsPidDead    bool
+	vsJobInfoErr bool
+	vsGlob       []string
+	vsSigReg     int
+)
+
+//verif:stub os.RemoveAll
+func vsRemoveAll(p string) error {
+	vsRemovedAll = append(vsRemovedAll, p)
+	return nil
+}
+
+//verif:stub os.Remove
+func vsRemove(p string) error {
+	vsRemovedOne = append(vsRemovedOne, p)
+	return nil
+}
+
+//verif:stub github.com/martian-lang/martian/martian/util.Readdirnames
+func vsReaddirnames(p string) ([]string, error) { return nil, nil }
+
+//verif:stub os.FindProcess
+func vsFindProcess(pid int) (*os.Process, error) { return &os.Process{}, nil }
+
+//verif:stub (*os.Process).Signal
+func vsProcSignal(p *os.Process, sig os.Signal) error {
+	if vsPidDead {
+		return errors.New("no such process")
+	}
+	return nil
+}
+
+//verif:stub (*github.com/martian-lang/martian/martian/core.Metadata).glob
+func vsMetaGlob(self *Metadata) ([]string, error) { return vsGlob, nil }
+
+//verif:stub github.com/martian-lang/martian/martian/util.RegisterSignalHandler
+func vsRegisterSignalHandler(h util.HandlerObject) { vsSigReg++ }
 
 // ---- fake job manager
 
@@ -932,5 +985,105 @@ func H_SCHED_expandFork(nforks int, mapMode int) {
 				verifAssert(id[1].Id.MapKey() == "k"+string(rune('1'+j)) && id[0].Id.ArrayIndex() == idx, "C01/C03: the new forks take the remaining keys, same outer index")
 			}
 		}
+	}
+}
+
+// H_C05_metadataRestart: the three restart decisions on one job's metadata
+// with an arbitrary (crash-consistent) set of sentinel files.
+//
+//	C05: work whose completion is recorded is never reset; a job is reset
+//	exactly when it failed (mrp reset), was queued but never started, or was
+//	running under a process that no longer exists; after a reset nothing of
+//	the old attempt remains in the cache.
+func H_C05_metadataRestart(op int) {
+	disableUniquification = false
+	m := NewMetadata("ID.ps.P.S.fork0.chnk0", "/ps/P/S/fork0/chnk0")
+	m.journalPath = "/ps/journal/P.S.fork0.chnk0"
+	vsSymbolicContents(m, "X", QueuedLocally)
+	// crash consistency: a job writes _jobinfo (via mrp), then _log, then its verdict;
+	// _queued_locally is removed when the job is started, before it can write anything
+	verifAssume(verifImplies(vsHas(m, LogFile), vsHas(m, JobInfoFile)))
+	verifAssume(verifImplies(vsHas(m, QueuedLocally), verifAll(!vsHas(m, LogFile), !vsHas(m, CompleteFile))))
+	verifAssume(!vsHas(m, DisabledFile))
+	vsPidZero, vsPidDead, vsJobInfoErr = verifBool("pid.unrecorded"), verifBool("pid.dead"), verifBool("jobinfo.unreadable")
+	st, known := m.getState()
+	queuedLocally := vsHas(m, QueuedLocally)
+	var err error
+	switch op {
+	case 0:
+		err = m.checkedReset()
+	case 1:
+		err = m.restartLocal()
+	default:
+		err = m.restartQueuedLocal()
+	}
+	verifCover("restart decision taken")
+	verifAssert(err == nil, "a reset that meets no file-system error succeeds")
+	reset := false
+	for _, p := range vsRemovedAll {
+		if p == m.path {
+			reset = true
+		}
+	}
+	if reset {
+		verifCover("job reset")
+		verifAssert(st != Complete && st != DisabledState, "C05: a job whose completion is recorded is never reset")
+		verifAssert(len(m.contents) == 0, "C05: after a reset nothing of the old attempt remains cached")
+	} else {
+		verifAssert(vsHas(m, CompleteFile) == (st == Complete) || st == Failed, "C05: a job that is not reset keeps its recorded state")
+	}
+	switch op {
+	case 0:
+		verifAssert(reset == (st == Failed), "C05: mrp reset clears exactly the failed jobs")
+	case 1:
+		want := known && (st == Queued || (st == Running && !vsJobInfoErr && !vsPidZero && vsPidDead))
+		verifAssert(reset == want, "C05: a local restart clears exactly queued jobs and running jobs whose process is gone")
+	default:
+		verifAssert(reset == queuedLocally, "C05: exactly the jobs still marked queued-locally are requeued")
+	}
+}
+
+// H_C05_lock: Pipestance.Lock refuses a locked pipestance and changes nothing;
+// otherwise it writes the lock and registers for signals; a handled
+// termination signal removes the lock.  (Also the last clause of C15.)
+func H_C05_lock() {
+	disableUniquification = false
+	top := vsTop()
+	p := vsPipelineNode(top, nil, "ID.ps.P", "P")
+	p.parent = top
+	ps := &Pipestance{node: p, metadata: NewMetadata("ID.ps", "/ps")}
+	locked := verifBool("lock.exists")
+	other := verifBool("other.file")
+	vsGlob = nil
+	if locked {
+		vsGlob = append(vsGlob, "/ps/_lock")
+	}
+	if other {
+		vsGlob = append(vsGlob, "/ps/_timestamp")
+	}
+	err := ps.Lock()
+	verifCover("lock attempted")
+	if locked {
+		verifCover("lock refused")
+		verifAssert(err != nil, "C05/C15: a second mrp cannot lock a pipestance that is locked")
+		verifAssert(len(vsWrites) == 0 && vsSigReg == 0, "C05/C15: a refused lock writes nothing and registers nothing")
+	} else {
+		verifAssert(err == nil, "an unlocked pipestance can be locked")
+		wrote := false
+		for _, w := range vsWrites {
+			if w == "/ps/_lock" {
+				wrote = true
+			}
+		}
+		verifAssert(wrote && vsSigReg == 1, "C05: taking the lock writes _lock and registers the signal handler")
+		verifAssert(ps.metadata.exists(Lock), "the lock is cached")
+		ps.HandleSignal(nil)
+		removed := false
+		for _, r := range vsRemovedOne {
+			if r == "/ps/_lock" {
+				removed = true
+			}
+		}
+		verifAssert(removed && !ps.metadata.exists(Lock), "C05: a handled termination signal leaves the pipestance unlocked")
 	}
 }
